@@ -126,10 +126,15 @@ theorem tmBegin_glob (l : Led) (cur : Nat) (id : TxId) (t : Nat) (f : Bool) (gid
     (tmBegin l cur id t f).1.getS (.glob gid) = l.getS (.glob gid) := by
   unfold tmBegin; simp
 
-theorem tmBeginInter_glob {l : Led} {cur : Nat} {id : TxId} {t : Nat} {f : Bool} {r : Led × StatusChange}
-    (e : tmBeginInter l cur id t f = .ok r) (gid : GId) : r.1.getS (.glob gid) = l.getS (.glob gid) := by
+theorem tmBeginInter_glob {l : Led} {cur : Nat} {id : TxId} {t : Nat} {x : Ext} {f : Bool} {r : Led × StatusChange}
+    (e : tmBeginInter l cur id t x f = .ok r) (gid : GId) : r.1.getS (.glob gid) = l.getS (.glob gid) := by
   unfold tmBeginInter at e
   split at e
+  · split at e
+    · cases e
+    · split at e
+      · cases e
+      · cases e; simp
   · cases e
   · cases e; simp
 
